@@ -383,7 +383,9 @@ func (ab *dsAddrBook) supersededSignedAddrs(p peer.ID, newAddrs []ma.Multiaddr) 
 	pr.RUnlock()
 
 	superseded := make([]ma.Multiaddr, 0, len(prevRec.Addrs))
-	for _, a := range prevRec.Addrs {
+	// newAddrs and the stored entries have their /p2p/<own id> suffix removed:
+	// compare the previous record in that form as well.
+	for _, a := range cleanAddrs(prevRec.Addrs, p) {
 		key := string(a.Bytes())
 		if _, still := newSet[key]; still {
 			continue
